@@ -195,19 +195,10 @@ yield1:
 	 * has been called, then off would be 0 and __ctx->bno would be
 	 * the buffer filled so far, if no more bytes could be read then
 	 * we'd proceed processing them (off < __ctx->bno + nrd */
-	if (UNLIKELY(!nrd && off < bno && ctx->cur_lno <= ctx->tot_lno)) {
-		/* last line then, unyielded :| */
-		set_loff(ctx, ctx->tot_lno, bno - ctx->buf);
-		off = bno;
-		/* count it as line and check if we need more */
-		if (++ctx->tot_lno >= MAX_NLINES) {
-			YIELD(3);
-		}
-		YIELD(4);
-	} else if (UNLIKELY(nrd <= 0 && off == ctx->buf)) {
+	if (UNLIKELY(nrd <= 0 && off == ctx->buf)) {
 		/* special case, we worked our arses off and nothing's
 		 * in the pipe line so just fuck off here */
-		if (!ctx->bno) {
+		if (bno == ctx->buf) {
 			return -1;
 		}
 		/* go to drain mode */
@@ -225,8 +216,11 @@ yield2:
 			if (LIKELY(nrd > 0)) {
 				break;
 			}
-			/* not concluded with \n, let's hope we're in drain mode */
-			return -1;
+			/* last line then, not concluded with \n,
+			 * count it as line, and off we go */
+			set_loff(ctx, ctx->tot_lno++, bno - ctx->buf);
+			off = bno;
+			YIELD(3);
 		}
 		/* massage our status structures */
 		set_loff(ctx, ctx->tot_lno, p - ctx->buf);
@@ -247,7 +241,6 @@ yield3:
 	/* need clean up, something like unread(),
 	 * in particular leave a note in __ctx with the left over offset */
 	ctx->cur_lno = 0;
-yield4:
 	ctx->off = off - ctx->buf;
 	ctx->bno = bno - ctx->buf;
 #undef YIELD
